@@ -187,6 +187,15 @@ func targets() []target {
 }
 
 func streamInfo(ssrc uint32) *interceptor.StreamInfo {
+	info := streamInfoTWCC(ssrc)
+	if ssrc%2 == 0 {
+		info.RTPHeaderExtensions = nil // even streams: no transport-wide extension (RFC 8888 / CCFB paths)
+	}
+
+	return info
+}
+
+func streamInfoTWCC(ssrc uint32) *interceptor.StreamInfo {
 	return &interceptor.StreamInfo{
 		SSRC: ssrc, PayloadType: 96, ClockRate: 90000, MimeType: "video/VP8",
 		SSRCRetransmission: ssrc + 1000, PayloadTypeRetransmission: 97,
@@ -197,8 +206,10 @@ func streamInfo(ssrc uint32) *interceptor.StreamInfo {
 	}
 }
 
-func rtcpInput(round uint32) []byte {
-	base := uint16(round * 8)
+// rtcpInput builds one compound packet; recent is the sequence number the writers of the
+// addressed stream have just used, so NACKs and feedback refer to packets that are still in the histories.
+func rtcpInput(round uint32, recent uint16) []byte {
+	base := recent - 6
 	pkts := []rtcp.Packet{
 		&rtcp.ReceiverReport{SSRC: 9, Reports: []rtcp.ReceptionReport{{SSRC: 1, LastSequenceNumber: uint32(base), LastSenderReport: 1, Delay: 1}}},
 		&rtcp.TransportLayerNack{SenderSSRC: 9, MediaSSRC: 1 + round%2, Nacks: []rtcp.NackPair{{PacketID: base, LostPackets: 0x5}}},
@@ -243,14 +254,15 @@ func stress(t target, d time.Duration, nW, nR, nK int) error {
 	rtcpSink := interceptor.RTCPWriterFunc(func([]rtcp.Packet, interceptor.Attributes) (int, error) { return 0, nil })
 	_ = icpt.BindRTCPWriter(rtcpSink)
 	var rtcpRound atomic.Uint32
+	seqs := make([]atomic.Uint32, 4)
 	rtcpReader := icpt.BindRTCPReader(interceptor.RTCPReaderFunc(func(b []byte, a interceptor.Attributes) (int, interceptor.Attributes, error) {
-		in := rtcpInput(rtcpRound.Add(1))
+		round := rtcpRound.Add(1)
+		in := rtcpInput(round, uint16(seqs[round%2].Load()))
 
 		return copy(b, in), a, nil
 	}))
 	writers := make([]interceptor.RTPWriter, 2)
 	readers := make([]interceptor.RTPReader, 2)
-	seqs := make([]atomic.Uint32, 4)
 	for s := 0; s < 2; s++ {
 		ssrc := uint32(s + 1)
 		writers[s] = icpt.BindLocalStream(streamInfo(ssrc), sink)
